@@ -24,6 +24,7 @@ int sr_sign(const uint8_t d[32], const uint8_t e[32], const uint8_t k[32], uint8
 int sr_verify(const uint8_t pub[64], const uint8_t e[32], const uint8_t r[32], const uint8_t s[32]);      /* 1 iff 1<=r,s<n, r+s!=0 mod n and equation */
 int sr_encrypt(const uint8_t pub[64], const uint8_t k[32], const uint8_t *in, size_t inlen, uint8_t c1[64], uint8_t c3[32], uint8_t *c2); /* 0 if kdf output all zero */
 int sr_decrypt(const uint8_t d[32], const uint8_t c1[64], const uint8_t c3[32], const uint8_t *c2, size_t c2len, uint8_t *out); /* 1 iff valid */
+int sr_seal_with_c1(const uint8_t d[32], const uint8_t c1[64], const uint8_t *in, size_t n, uint8_t c3[32], uint8_t *c2);
 int sr_pubkey(const uint8_t d[32], uint8_t pub[64]);
 int sr_ecdh(const uint8_t d[32], const uint8_t peer[64], uint8_t out[64]); /* d*peer, 0 if infinity */
 /* OpenSSL EVP high level (independent implementation of the scheme, not only of the arithmetic) */
